@@ -5,20 +5,41 @@ use serde_json::{Map, Value};
 /// A JSON object.
 pub type JsonObject = Map<String, Value>;
 
-/// Permisive deserialization for optional 256-bit integer types.
+/// Permissive deserialization for unsigned 256-bit integers.
+///
+/// This accepts the same spellings as `ethnum::serde::permissive`, but refuses
+/// negative numbers instead of wrapping them around modulo 2^256.
+pub mod permissive {
+    use ethnum::U256;
+    use serde::{
+        de::{self, Deserializer},
+        Deserialize as _,
+    };
+    use serde_json::Value;
+
+    pub fn deserialize<'de, D>(deserializer: D) -> Result<U256, D::Error>
+    where
+        D: Deserializer<'de>,
+    {
+        let value = Value::deserialize(deserializer)?;
+        if value.as_f64().is_some_and(|number| number < 0.) {
+            return Err(de::Error::custom("negative value for unsigned integer"));
+        }
+        ethnum::serde::permissive::deserialize(value).map_err(de::Error::custom)
+    }
+}
+
+/// Permisive deserialization for optional unsigned 256-bit integers.
 pub mod numopt {
-    use ethnum::serde::permissive::Permissive;
+    use ethnum::U256;
     use serde::{Deserialize, Deserializer};
 
     #[derive(Deserialize)]
     #[serde(transparent)]
-    struct Helper<T>(#[serde(with = "ethnum::serde::permissive")] T)
-    where
-        T: Permissive;
+    struct Helper(#[serde(with = "super::permissive")] U256);
 
-    pub fn deserialize<'de, T, D>(deserializer: D) -> Result<Option<T>, D::Error>
+    pub fn deserialize<'de, D>(deserializer: D) -> Result<Option<U256>, D::Error>
     where
-        T: Permissive,
         D: Deserializer<'de>,
     {
         let option = Option::deserialize(deserializer)?;
